@@ -57,7 +57,7 @@ def C01_ReadPacket : List String := ["err := ps.acquireReadLock(); err != nil", 
 def C01_decompressData : List String := ["estimatedSize > constants.MaxPacketBodySize", "err != nil", "n > int64(constants.MaxPacketBodySize)"]
 def C01_readPacketBody : List String := ["bodySize > constants.MaxPacketBodySize", "err != nil && totalRead < int(bodySize)"]
 def C01_readPacketBodySize : List String := ["_, err := io.ReadFull(ps.reader, sizeBuffer[:constants.PacketBodySizeBytes]); err != nil"]
-def C01_readPacketType : List String := ["n == constants.PacketTypeSize", "!packetType.IsValid()", "err != nil"]
+def C01_readPacketType : List String := ["n == constants.PacketTypeSize", "err != nil"]
 end Cond
 
 end Gen
